@@ -77,21 +77,25 @@ theorem src_is_b64_eq (s : List Char) (h0 : Bytes) (wc0 : Int) :
       · have b1 : (tag0 &&& 128 != 0) = false := by simp [h1]
         by_cases h2 : tag0 = 17
         · have b2 : (tag0 == 17) = true := by simp [h2]
-          cases Model.crc16 (List.take 34 (tag0 :: rest)) <;> simp [h1, b1, b2] <;> simp [h2]
+          cases Model.crc16 (List.take 34 (tag0 :: rest)) <;> simp [h1, b1, b2] <;> simp [h2] <;> (try (split <;> rename_i hx <;> split <;> rename_i hy <;> first | rfl | exact absurd hy.symm hx | exact absurd hx.symm hy))
         · have b2 : (tag0 == 17) = false := by simp [h2]
-          cases Model.crc16 (List.take 34 (tag0 :: rest)) <;> simp [h1, h2, b1, b2]
+          cases Model.crc16 (List.take 34 (tag0 :: rest)) <;> simp [h1, h2, b1, b2] <;> (try (split <;> rename_i hx <;> split <;> rename_i hy <;> first | rfl | exact absurd hy.symm hx | exact absurd hx.symm hy))
       · have b1 : (tag0 &&& 128 != 0) = true := by simp [h1]
         by_cases h2 : tag0 ^^^ 128 = 17
         · have b2 : (tag0 ^^^ 128 == 17) = true := by simp [h2]
-          cases Model.crc16 (List.take 34 (tag0 :: rest)) <;> simp [h1, h2, b1, b2]
+          cases Model.crc16 (List.take 34 (tag0 :: rest)) <;> simp [h1, h2, b1, b2] <;> (try (split <;> rename_i hx <;> split <;> rename_i hy <;> first | rfl | exact absurd hy.symm hx | exact absurd hx.symm hy))
         · have b2 : (tag0 ^^^ 128 == 17) = false := by simp [h2]
-          cases Model.crc16 (List.take 34 (tag0 :: rest)) <;> simp [h1, h2, b1, b2]
+          cases Model.crc16 (List.take 34 (tag0 :: rest)) <;> simp [h1, h2, b1, b2] <;> (try (split <;> rename_i hx <;> split <;> rename_i hy <;> first | rfl | exact absurd hy.symm hx | exact absurd hx.symm hy))
 
 /-- `a == b` and `a.__hash__()` regenerated = the model's -/
 theorem src_eq_eq (a b : Addr) : Generated.AddrFull.eq (self_wc := a.wc) (self_hash_part := a.hash) (other := b) = some (Address.eq a b) := by
   unfold Generated.AddrFull.eq Address.eq
   by_cases h1 : a.wc = b.wc <;> by_cases h2 : a.hash = b.hash <;> simp [h1, h2]
 
-theorem src_hash_eq (a : Addr) : hash (self_wc := a.wc) (self_hash_part := a.hash) = some (pyHash a) := rfl
+theorem src_hash_eq (a : Addr) : Generated.AddrFull.hash (self_wc := a.wc) (self_hash_part := a.hash) = some (pyHash a) := by
+  unfold Generated.AddrFull.hash pyHash
+  first
+    | rfl
+    | (simp only [Option.some.injEq]; omega)
 
 end TonVerif.Proofs.SrcAddr
